@@ -117,10 +117,11 @@ struct ScenarioReg {
 };
 #define VS_CAT_(a, b) a##b
 #define VS_CAT(a, b) VS_CAT_(a, b)
-#define SCENARIO(NAME) \
-  static void VS_CAT(vs_scn_, __LINE__)(); \
-  static vs::ScenarioReg VS_CAT(vs_reg_, __LINE__)(NAME, VS_CAT(vs_scn_, __LINE__)); \
-  static void VS_CAT(vs_scn_, __LINE__)()
+#define SCENARIO_(NAME, N) \
+  static void VS_CAT(vs_scn_, N)(); \
+  static vs::ScenarioReg VS_CAT(vs_reg_, N)(NAME, VS_CAT(vs_scn_, N)); \
+  static void VS_CAT(vs_scn_, N)()
+#define SCENARIO(NAME) SCENARIO_(NAME, __COUNTER__)
 
 inline std::string demangle(const char* n) {
   int st = 0; char* d = abi::__cxa_demangle(n, 0, 0, &st);
